@@ -22,7 +22,8 @@ B(b) == IF b THEN 1 ELSE 0
 Labels == <<"call", "h_release", "c_sleep", "done", "src_closed", "src_lock", "push_lt", "push_lh", "push_w",
             "push_st", "src_notify", "src_trylock", "src_popunlock", "src_unlock", "pop_lh", "pop_lt", "pop_r",
             "pop_sh", "clone_add", "drop_sub", "drop_close", "drop_notify", "r_create", "r_ended", "r_lock",
-            "r_closed", "r_setended", "r_unlock", "r_await", "r_recheck", "empty", "stop_store", "stop_notify">>
+            "r_closed", "r_setended", "r_unlock", "r_await", "r_recheck", "empty", "stop_store", "stop_notify",
+            "rdrop_close", "rdrop_notify">>
 LabelMap == [l \in {Labels[i] : i \in 1..Len(Labels)} |-> CHOOSE i \in 1..Len(Labels) : Labels[i] = l]
 LabelIdx(l) == LabelMap[l]
 Results == <<"", "Ok", "WouldBlock", "Closed", "none", "ok", "eos">>
